@@ -1,10 +1,7 @@
 # C17 — Retries are bounded and exhausted retries fail the workflow
 STRINGS = "abstract"
 
-exc("FailureHandlingException", base="WorkflowException")
-exc("WorkflowException", base="Exception")
-exc("WorkflowExecutionException", base="WorkflowException")
-exc("UnrecoverableWorkflowException", base="WorkflowException")
+excs_from("streamflow/core/exception.py")  # class hierarchy read from the source on every run
 enum("Status", WAITING=0, FIREABLE=1, RUNNING=2, SKIPPED=3, COMPLETED=4, RECOVERY=5, ROLLBACK=6, FAILED=7, CANCELLED=8)
 
 cls("Lock")
@@ -98,7 +95,7 @@ def _():
     raises(KeyboardInterrupt, ensures=GHOST.failed == 0)
     raises(UnrecoverableWorkflowException, ensures=GHOST.failed == 0)
     raises(WorkflowExecutionException, ensures=GHOST.failed == 1)
-    raises(FailureHandlingException, ensures=GHOST.failed == 1)
+    raises(FailureHandlingException, ensures=GHOST.failed == 0)  # a subclass of UnrecoverableWorkflowException
     raises(Exception, ensures=GHOST.failed == 1)
 
 
@@ -117,10 +114,10 @@ def _(step: Step, job: Job):
     ensures(step.workflow.context.failure_manager.recover_failed == old(step.workflow.context.failure_manager.recover_failed))
     # a failure of the wrapped call is handed to the failure manager exactly once; success never is
     ensures(step.workflow.context.failure_manager.n_recover == old(step.workflow.context.failure_manager.n_recover) + GHOST.failed)
-    # unrecoverable exceptions propagate without any recovery attempt
-    raises(asyncio.CancelledError, ensures=step.workflow.context.failure_manager.n_recover == old(step.workflow.context.failure_manager.n_recover))
-    raises(KeyboardInterrupt, ensures=step.workflow.context.failure_manager.n_recover == old(step.workflow.context.failure_manager.n_recover))
-    raises(UnrecoverableWorkflowException, ensures=step.workflow.context.failure_manager.n_recover == old(step.workflow.context.failure_manager.n_recover))
-    # whatever the failure manager raises propagates (after exactly one attempt): the wrapper never swallows it
-    raises(FailureHandlingException, ensures=step.workflow.context.failure_manager.n_recover == old(step.workflow.context.failure_manager.n_recover) + 1)
-    raises(WorkflowExecutionException, ensures=step.workflow.context.failure_manager.n_recover == old(step.workflow.context.failure_manager.n_recover) + 1)
+    # on every exceptional exit the same accounting holds: unrecoverable exceptions of the wrapped call (GHOST.failed == 0:
+    # cancellation, interrupt, UnrecoverableWorkflowException and its subclasses) propagate without any recovery attempt;
+    # a generic failure (GHOST.failed == 1) reaches here only as the exception raised by the single recover() call
+    raises(asyncio.CancelledError, ensures=step.workflow.context.failure_manager.n_recover == old(step.workflow.context.failure_manager.n_recover) and GHOST.failed == 0)
+    raises(KeyboardInterrupt, ensures=step.workflow.context.failure_manager.n_recover == old(step.workflow.context.failure_manager.n_recover) and GHOST.failed == 0)
+    raises(WorkflowException, ensures=step.workflow.context.failure_manager.n_recover == old(step.workflow.context.failure_manager.n_recover) + GHOST.failed
+           and step.workflow.context.failure_manager.recover_failed == old(step.workflow.context.failure_manager.recover_failed) + GHOST.failed)
